@@ -216,7 +216,43 @@ def getD (st : PyStore α) (i : Nat) (d : α) : α := (get? st i).getD d
 def modify (st : PyStore α) (i : Nat) (f : α → α) : PyStore α :=
   { st with objs := st.objs.map (fun e => if e.1 == i then (e.1, f e.2) else e) }
 
+/-- every stored id is below the next one (`alloc` never reuses an id) -/
+def Fresh (st : PyStore α) : Prop := ∀ e ∈ st.objs, e.1 < st.next
+
+theorem fresh_empty : Fresh (empty : PyStore α) := fun _ h => by cases h
+
+theorem fresh_alloc {st : PyStore α} (h : Fresh st) (o : α) : Fresh (alloc st o).2 := by
+  intro e he
+  simp only [alloc, List.mem_append, List.mem_singleton] at he
+  rcases he with he | he
+  · exact Nat.lt_succ_of_lt (h e he)
+  · rw [he]; exact Nat.lt_succ_self _
+
+theorem get?_alloc_new {st : PyStore α} (h : Fresh st) (o : α) : get? (alloc st o).2 st.next = some o := by
+  simp only [get?, alloc]
+  rw [List.find?_append]
+  have : st.objs.find? (fun e => e.1 == st.next) = none := by
+    rw [List.find?_eq_none]
+    intro e he
+    have := h e he
+    simp only [beq_iff_eq]
+    omega
+  simp [this]
+
+theorem get?_alloc_old {st : PyStore α} (o : α) {j : Nat} (hj : j < st.next) : get? (alloc st o).2 j = get? st j := by
+  simp only [get?, alloc]
+  rw [List.find?_append]
+  cases hf : st.objs.find? (fun e => e.1 == j) with
+  | some e => simp
+  | none =>
+    have : ¬ st.next = j := by omega
+    simp [this]
+
+theorem getD_alloc_old {st : PyStore α} (o d : α) {j : Nat} (hj : j < st.next) : getD (alloc st o).2 j d = getD st j d := by
+  simp only [getD, get?_alloc_old o hj]
+
 end PyStore
+
 
 /-! ## `heapq` on the ascending-list abstraction (DESIGN §7 C10): a heap is a list in ascending order, `heappush` inserts behind
 the entries that are not greater, `heappop` takes the head.  Which of several entries with equal keys CPython's array layout
@@ -233,6 +269,24 @@ def push (lt : α → α → Bool) : List α → α → List α
 def pop : List α → Except PyExc (α × List α)
   | [] => .error .indexError
   | x :: r => .ok (x, r)
+
+end PyHeap
+
+namespace PyHeap
+variable {α β : Type}
+
+/-- `heappush` through a view of the elements (ids ↦ objects) that agrees on the order -/
+theorem map_push (lt : α → α → Bool) (lt' : β → β → Bool) (f : α → β) (l : List α) (x : α)
+    (h : ∀ y ∈ l, lt x y = lt' (f x) (f y)) : (push lt l x).map f = push lt' (l.map f) (f x) := by
+  induction l with
+  | nil => rfl
+  | cons y t ih =>
+    simp only [push, List.map_cons]
+    rw [h y List.mem_cons_self]
+    cases lt' (f x) (f y)
+    · simp only [Bool.false_eq_true, if_false, List.map_cons]
+      rw [ih (fun z hz => h z (List.mem_cons_of_mem _ hz))]
+    · rfl
 
 end PyHeap
 
